@@ -71,7 +71,9 @@ def make_solve_world(sm, cls):
     w.rec = rec
     w.ext = PyCallable(solver('external'), 'externalsolver')
     w.bc = bc
-    w.Mbc, w.Rbc = Mbc, Rbc
+    # the reference boundary system is built by a call of its own: the objects cached on the variable may legitimately be used
+    # as scratch space by solvePDE, the reference must not alias them
+    w.Mbc, w.Rbc = w.call('boundary', 'boundaryConditionsTerm', bc)
     return w, phi, terms, rec
 
 
@@ -147,8 +149,26 @@ def job(args):
                 er = er + c * w.vector_at(V, P)
             ob('S2', construct + '/rhs', is_zero(gr - er), f"RHS at {F.cstr(P)}: solver {fmt_rat(gr, 6)} vs assembled {fmt_rat(er, 6)}")
         # S1
-        muts = [e for e in w.ctx.events if e[0] == 'input-mutated' and (str(e[1]).startswith('phi._BCsTerm') or str(e[1]).startswith('term.'))]
-        ob('S1', construct, not muts, f"in-place writes into cached/handed-in storage: {muts[:3]}" if muts else "no write into the cached boundary system or the terms")
+        # S1: the terms handed in are never written.  The variable's own cached boundary system may be used as scratch space
+        # *during* the solve (an accumulator without a protective copy) as long as the cache the variable is left with is the
+        # boundary system of its current conditions again - what the next solve, a copy or a reader of _BCsTerm sees
+        muts = [e for e in w.ctx.events if e[0] == 'input-mutated' and str(e[1]).startswith('term.')]
+        ob('S1', construct, not muts, f"in-place writes into the terms handed in: {muts[:3]}" if muts else "no write into the terms handed in")
+        ct = phi.attrs.get('_BCsTerm')
+        try:
+            okc = isinstance(ct, tuple) and len(ct) == 2 and isinstance(ct[0], ASparse)
+            whyc = 'the variable is left without a cached boundary system' if not okc else ''
+            if okc:
+                for P in cells[:2] + ghosts[:2]:
+                    gotc = _rowsum(w, [(ONE, ct[0])], P)
+                    expc = _rowsum(w, [(ONE, w.Mbc)], P)
+                    rc, re_ = w.vector_at(ct[1], P), w.vector_at(w.Rbc, P)
+                    if set(gotc) != set(expc) or any(not is_zero(gotc[k] - expc[k]) for k in gotc) or not is_zero(rc - re_):
+                        okc, whyc = False, f"row {F.cstr(P)} of the cached boundary system after the solve: RHS {fmt_rat(rc, 4)} (boundary system: {fmt_rat(re_, 4)}), matrix {'ok' if set(gotc) == set(expc) and all(is_zero(gotc[k] - expc[k]) for k in gotc) else 'differs'}"
+                        break
+            ob('S1', construct + '/cache-after', okc, whyc or "after the solve the cached boundary system is the boundary system of the variable's conditions (no term left in it)")
+        except AnalysisError as e:
+            raise AnalysisError(f"cached boundary system after solvePDE not readable: {e}")
         same_list = len(term_list) == len(terms_before) and all(x is y for x, y in zip(term_list, terms_before))
         ob('S1', construct + '/term-list', same_list, "the caller's term list is unchanged (it can be reused in a time loop)" if same_list
            else f"the caller's list of equation terms was changed by solvePDE: {len(terms_before)} -> {len(term_list)} entries")
